@@ -40,6 +40,8 @@ type (
 		Name  string
 		Scope *Scope
 	}
+	// NilFuncV is the nil Go function value of the host variable nilfn.
+	NilFuncV struct{}
 	// UndefV is a value the properties leave under-determined (the value
 	// of a call whose body ends without `return`).  It may be stored and
 	// passed around; observing it makes the run Undetermined.
@@ -79,7 +81,7 @@ func Render(v Value) string {
 		return "{" + strings.Join(parts, " ") + "}"
 	case *ChanV:
 		return "chan"
-	case *FuncV:
+	case *FuncV, NilFuncV:
 		return "func"
 	case *ErrV:
 		return v.Pattern()
